@@ -204,6 +204,13 @@ func (g *Gen) cons(depth int) *ConsSpec {
 			c.Attrs = append(c.Attrs, a)
 		}
 		sort.SliceStable(c.Attrs, func(i, j int) bool { return c.Attrs[i].Name < c.Attrs[j].Name })
+		if len(c.Attrs) >= 2 && g.chance(0.5) {
+			// an optional attribute sorting before a required one (what a
+			// pre-filled snippet leaves out must not use up tab stops)
+			first, last := c.Attrs[0], c.Attrs[len(c.Attrs)-1]
+			first.Req, first.Opt, first.Comp = false, true, false
+			last.Req, last.Opt, last.Comp = true, false, false
+		}
 		return c
 	default:
 		n := 2 + g.n(2)
